@@ -482,6 +482,8 @@ func (x *Exec) Do(op Op) (f *Fail) {
 		return nil
 	case "checkR":
 		return x.checkReader(op.N)
+	case "backup", "copyfile":
+		return x.backup(op, idx)
 	case "reopen":
 		for _, r := range x.Readers {
 			if r != nil {
